@@ -139,6 +139,14 @@ func ParseResponse(data []byte, req *http.Request) (resp *Response, err error) {
 	if err != nil {
 		return nil, errors.Join(errInvalidResponse, fmt.Errorf("failed to read response: %w", err))
 	}
+	// The whole entry is in memory: make sure the body is complete, so that a
+	// truncated entry is treated as corrupted instead of being served.
+	body, err := io.ReadAll(r.Body)
+	_ = r.Body.Close()
+	if err != nil {
+		return nil, errors.Join(errInvalidResponse, fmt.Errorf("failed to read body: %w", err))
+	}
+	r.Body = io.NopCloser(bytes.NewReader(body))
 	// Serialising may re-introduce connection-level fields (e.g. "Connection:
 	// close" for HTTP/1.0 responses); they are never replayed (RFC 9111 §3.1).
 	removeHopByHopHeaders(r)
